@@ -224,4 +224,21 @@ theorem runLayered_window (ws : List (Str × Spill)) : ∀ (l : Layered), l.clos
       obtain ⟨y1, y2, y3, y4⟩ := c
       exact ⟨x1.trans y1, x2.trans y2, x3.trans y3, x4.trans y4⟩
 
+/-- the abstraction commutes with whole histories of writes (no size-driven spill) -/
+theorem toTextFile_run (ms : List Str) : ∀ (l : Layered), l.buffered = true →
+    (runLayered l (ms.map (fun m => (m, Spill.none)))).toTextFile = ms.foldl TextFile.write l.toTextFile := by
+  induction ms with
+  | nil => intro l _; rfl
+  | cons m ms ih =>
+    intro l hb
+    have hb' : (l.write m Spill.none).buffered = true := by
+      unfold Layered.write
+      obtain ⟨os, bin, text, bu, lb, wt, cl⟩ := l
+      simp only at hb; subst hb
+      cases cl <;> cases lb <;> cases wt <;> cases hasLineEnd m <;>
+        simp [Spill.none, Layered.textFlush, Layered.binWrite, Layered.binFlush]
+    have := ih (l.write m Spill.none) hb'
+    simp only [runLayered, List.map_cons, List.foldl_cons] at this ⊢
+    rw [this, Layered.toTextFile_write l hb m]
+
 end Buffer
